@@ -115,7 +115,7 @@ func c04ReadMap(k int, bs uint32, maxCount uint16, maxStart uint64, maxLen int) 
 	dev.NoWrites = true
 	fl := c04File(dev, bs, es, size, off, false)
 	vp.AllocCap(maxLen)
-	vp.Unwind(maxLen + 8)
+	vp.Unwind(6*maxLen + 8) // the check loops below run maxLen x (device reads) iterations
 	buf := make([]byte, n)
 	vp.KnownPanic("KF-C04-2", "ext4/file.go:73")
 	vp.NoPanic()
@@ -203,7 +203,7 @@ func c04WriteMap(k int, bs uint32, maxCount uint16, maxStart uint64, maxLen int)
 	dev := vpdev.NewMemDev("disk", -1)
 	fl := c04File(dev, bs, es, size, off, true)
 	vp.AllocCap(maxLen)
-	vp.Unwind(maxLen + 8)
+	vp.Unwind(6*maxLen + 8)
 	data := make([]byte, n)
 	vp.Fill(data, "data")
 	vp.KnownPanic("KF-C04-3", "ext4/file.go:198")
